@@ -169,9 +169,34 @@ func checkC09(c *core.Ctx) []core.Floor {
 		}
 	}
 	add("mutations", mut)
+	// (c2) substitutions: every token of a valid statement replaced, one at a
+	// time, by a token of another class (a number where a name stands, a name
+	// where a number stands, a literal, punctuation, an aggregate)
+	subs := []string{"1", "2", "3", "0", "'s'", "x", "t.x", "*", "(", ")", ",", "count(*)", "avg(a)", "NULL", "-"}
+	var sub []string
+	for i, v := range valid {
+		if quick && i%4 != 0 {
+			continue
+		}
+		toks := strings.Fields(v)
+		if len(toks) > 40 {
+			continue
+		}
+		for k := range toks {
+			for _, sb := range subs {
+				if toks[k] == sb {
+					continue
+				}
+				t := append([]string(nil), toks...)
+				t[k] = sb
+				sub = append(sub, strings.Join(t, " "))
+			}
+		}
+	}
+	add("substitutions", sub)
 	// every sequence of up to 4 clauses (repetitions and wrong orders included)
 	// after each statement head
-	clauses := []string{"FROM t", "WHERE a = 1", "GROUP BY a", "ORDER BY a DESC", "LIMIT 1", "OFFSET 2", "JOIN u ON a = b", "LEFT JOIN u x ON x.a = t.b", "AS z", ", b", "AND c = 2", "OR d < 3", "VALUES (1, 'a')", "SET a = 1", "(a, b)", ";"}
+	clauses := []string{"FROM t", "WHERE a = 1", "GROUP BY a", "ORDER BY a DESC", "LIMIT 1", "OFFSET 2", "JOIN u ON a = b", "LEFT JOIN u x ON x.a = t.b", "AS z", ", b", "AND c = 2", "OR d < 3", "VALUES (1, 'a')", "SET a = 1", "(a, b)", ";", "ORDER BY 1", "ORDER BY 2 DESC", "GROUP BY 1", "ORDER BY count(*)", "HAVING a = 1", "WHERE 1"}
 	heads := []string{"SELECT *", "SELECT a, count(*)", "SELECT * FROM t", "INSERT INTO t", "UPDATE t", "DELETE FROM t", "CREATE TABLE t (a int)", "SELECT avg(a) FROM t WHERE b = 1"}
 	var cl []string
 	depth := 3
@@ -319,7 +344,7 @@ func checkC09(c *core.Ctx) []core.Floor {
 	c.Sample(6, map[string]interface{}{"family": "prefixes", "example": pref[len(pref)/2]})
 	c.Sample(6, map[string]interface{}{"family": "mutations", "example": mut[len(mut)/2]})
 	fl := []core.Floor{{Key: "inputs", Min: 50000}}
-	for _, f := range []string{"token_sequences", "valid_statements", "prefixes", "mutations", "clause_sequences", "quotes", "numerics", "buffer_boundary", "unicode_case", "encoding_edges", "random_bytes", "deep"} {
+	for _, f := range []string{"token_sequences", "valid_statements", "prefixes", "mutations", "substitutions", "clause_sequences", "quotes", "numerics", "buffer_boundary", "unicode_case", "encoding_edges", "random_bytes", "deep"} {
 		fl = append(fl, core.Floor{Key: "family_" + f, Min: 1})
 	}
 	fl = append(fl, core.Floor{Key: "outcome_statement", Min: 1000}, core.Floor{Key: "outcome_error", Min: 1000})
